@@ -440,3 +440,65 @@ def _gostats_exp(X, ins, argv):
     r = X.w.fresh('expdraw', z3.RealSort())
     X.hyp(r >= 0)          # a draw from an exponential distribution is non-negative (trusted)
     return [r]
+
+
+# ---------------------------------------------------------------------- bytes.Buffer (abstract content, trusted)
+# A *bytes.Buffer b has a ghost content buf_content[b] : Str.  Writes extend it by an uninterpreted append (the
+# result is a function of the previous content and of what was written, nothing else); String() returns it.
+BUF = 'bytes.Buffer'
+
+
+def buf_key(w):
+    return ('ghost', 'buf_content', z3.ArraySort(I, w.Str), BUF)
+
+
+def _buf_write(X, ins, argv, kind):
+    w = X.w
+    b = argv[0]
+    X.nonnil(b, ins.get('pos', ''), 'method call on nil *bytes.Buffer')
+    k = buf_key(w)
+    c = X.heap.get(k)
+    a = argv[1]
+    if kind == 'bytes':
+        piece = w.fresh('bytes_written', w.Str)
+    else:
+        piece = w.uf('buf_piece_' + kind, a.sort(), w.Str)(a) if kind != 'str' else a
+    X.heap.set(k, z3.Store(c, b, w.uf('buf_append', w.Str, w.Str, w.Str)(c[b], piece)))
+    n = w.fresh('nwritten', I)
+    X.hyp(n >= 0)
+    return n
+
+
+@ext('(*bytes.Buffer).WriteString')
+def _buf_ws(X, ins, argv):
+    return [_buf_write(X, ins, argv, 'str'), X.w.nil_iface()]
+
+
+@ext('(*bytes.Buffer).WriteRune')
+def _buf_wr(X, ins, argv):
+    return [_buf_write(X, ins, argv, 'rune'), X.w.nil_iface()]
+
+
+@ext('(*bytes.Buffer).WriteByte')
+def _buf_wb(X, ins, argv):
+    _buf_write(X, ins, argv, 'byte')
+    return [X.w.nil_iface()]
+
+
+@ext('(*bytes.Buffer).String')
+def _buf_string(X, ins, argv):
+    w = X.w
+    X.hyp(argv[0] != 0) if False else None
+    return [X.heap.get(buf_key(w))[argv[0]]]
+
+
+@ext('(*bytes.Buffer).Reset')
+def _buf_reset(X, ins, argv):
+    w = X.w
+    k = buf_key(w)
+    X.heap.set(k, z3.Store(X.heap.get(k), argv[0], w.strlit('')))
+    return []
+
+
+for _m in ('WriteString', 'WriteRune', 'WriteByte', 'Reset'):
+    EXT['mod:(*bytes.Buffer).' + _m] = lambda V: {buf_key(V.world)}
